@@ -93,7 +93,6 @@ func c18Judge(text, setter string) (string, string) {
 		}
 		wantStripped := toLatin1(stripCRLF(text))
 
-
 		gs := []byte(strings.NewReplacer("\r", "", "\n", "").Replace(string(stored)))
 		if !bytes.Equal(gs, wantStripped) {
 			shape := "other"
